@@ -1,22 +1,15 @@
-(** C13 - Self-pipe wake: one non-blocking byte per delivery; fd owned and closed once.
-    Full text of the first sentence = [one_nonblocking_byte_statement] (pipe/Spec.v); it is
-    REFUTED by the faithful model (datagram socket whose queue holds only the empty probe
-    datagrams of register_raw); [..._partial] is the strongest true form. *)
+(** C13 - Self-pipe wake: one non-blocking byte per delivery; fd owned and closed once. *)
 From Coq Require Import ZArith List Bool Arith.
 From SH Require Import gen.Extracted_pipe pipe.Model pipe.Spec pipe.Theorems.
 Import ListNotations.
 Open Scope nat_scope.
 
-Theorem C13_one_nonblocking_byte_refuted : ~ one_nonblocking_byte_statement.
-Proof. exact one_nonblocking_byte_refuted. Qed.
-
-Theorem C13_one_nonblocking_byte_partial :
+Theorem C13_one_nonblocking_byte :
   forall accept, accept_empty accept ->
-  forall (w : list chan_spec) (h : list op),
+  forall (w : list chan_spec) (h : list op), world_in_bytes w ->
     (forall sig, delivery_ok accept (run accept w h) sig) /\
-    (forall ch, let c := getc (chans (run accept w h)) ch in
-                chan_ok_partial c /\ (c_kind c <> KDgram -> chan_ok_full c)).
-Proof. exact one_nonblocking_byte_partial. Qed.
+    (forall ch, chan_ok_full (getc (chans (run accept w h)) ch)).
+Proof. exact one_nonblocking_byte. Qed.
 
 Theorem C13_fd_lifecycle :
   forall accept (w : list chan_spec) (h : list op),
